@@ -129,7 +129,7 @@ class FakeSocket:
             raise OSError("scripted receive failure")
         got = bytes(ln.rx[:n])
         del ln.rx[:n]
-        ln.reads.append({"asked": int(n), "got": len(got)})
+        ln.reads.append({"asked": int(n), "got": len(got), "att": len(ln.writes)})
         return got
 
     def recvfrom(self, n):
@@ -148,12 +148,12 @@ class FakeSocket:
                 ln.clock.t = max(ln.clock.t, arr)
             else:
                 ln.clock.sleep(tmo)
-                ln.reads.append({"asked": int(n), "got": 0})
+                ln.reads.append({"asked": int(n), "got": 0, "att": len(ln.writes)})
                 raise real_socket.timeout("timed out")
         k = ln.sizes.pop(0) if ln.sizes else len(ln.rx)      # one datagram per call; what does not fit the buffer is lost
         got = bytes(ln.rx[:min(n, k)])
         del ln.rx[:k]
-        ln.reads.append({"asked": int(n), "got": len(got)})
+        ln.reads.append({"asked": int(n), "got": len(got), "att": len(ln.writes)})
         return got, ("peer", 502)
 
     def close(self):
@@ -184,7 +184,7 @@ class FakeSerial:
             ln.deliver_due(ln.clock.t)
         got = bytes(ln.rx[:n])
         del ln.rx[:n]
-        ln.reads.append({"asked": n, "got": len(got)})
+        ln.reads.append({"asked": n, "got": len(got), "att": len(ln.writes)})
         return got
 
     def write(self, data):
@@ -554,7 +554,7 @@ class Transaction:
                 line.rx += fr
                 line.sizes.append(len(fr))
         return {"uid": uid, "fc": reqpdu[0], "pdu": list(reqpdu), "script": list(script), "fed": fed,
-                "writes": [list(w) for w in line.writes[w0:]], "reads": line.reads[r0:], "result": res,
+                "writes": [list(w) for w in line.writes[w0:]], "reads": [dict(r, att=r.get("att", w0) - w0) for r in line.reads[r0:]], "result": res,
                 "connfail": 0 if connect_ok else 1, "exact": exact, "pending_at_start": pending0, "vtime": round(self.clock.t - t_start, 3),
                 "s0": s0, "states": list(getattr(self.c, "_vstates", [])), "how": 0 if res["kind"] == "raised" else 1,
                 "normal_len": len(frame(0, uid, rsp))}     # length of the normal reply frame to this request (known-finding signature)
